@@ -1073,7 +1073,9 @@ def units(tier, seed):
         split=2)
     add("two boots through MachineController.boot",
         [menu([1028], [NONE, presets[2], (("sym", "hw_ver"), ("sym", "led0")),
-                       (("sym", "link_en"),)], MODES),
+                       (("sym", "link_en"),),
+                       # a variable named like a parameter of boot()
+                       (("sym", "boot_delay"), ("sym", "led1"))], MODES3),
          menu([1028, None], [NONE, presets[0]])],
         wit=("booted", "symbolic-option"), via_mc=True, split=2)
     add("two boots: synthetic struct file",
